@@ -79,7 +79,7 @@ class C09(CheckBase):
         tot = total_len(f)
         if tot <= 1:
             return None
-        mode = rng.weighted([(3, 'any'), (3, 'in_payload'), (2, 'header'), (2, 'eof_marker'), (1, 'line_boundary')])
+        mode = rng.weighted([(3, 'any'), (3, 'in_payload'), (2, 'header'), (2, 'eof_marker'), (1 if nl < 255 else 6, 'line_boundary')])
         for _ in range(20):
             if mode == 'eof_marker' or nl == 0:
                 marker = tot - line_start(f, nl)
@@ -91,6 +91,11 @@ class C09(CheckBase):
                     off = rng.randint(0, 3)
                 elif mode == 'line_boundary':
                     off = 0
+                    if nl >= 255 and rng.chance(0.7):
+                        # exactly k whole lines survive, for the k a narrow line counter would wrap at
+                        li = rng.choice([x for x in (255, 256, 257, 511, 512, 513, 768, 1024) if x <= nl])
+                        if li == nl:
+                            return {'op': 'cut', 'line': nl, 'off': 0}
                 elif mode == 'in_payload' and plen > 0:
                     off = (4 if bp.is_big_endian(f['dialect']) else 3) + rng.randint(0, plen - 1) + (0 if bp.is_big_endian(f['dialect']) else rng.below(2))
                 else:
